@@ -12,6 +12,7 @@
    It is NOT proved in full here; what is proved is listed below (`_partial`).            *)
 From HV Require Import Proto.RaftNet Proto.PRaftLocal Proto.PRaftElection Proto.PRaftRefine Proto.PRaftLeader
   Proto.PRaftWf Proto.PRaftLog Proto.PRaftLogRefine Proto.PRaftSms Proto.PRaftExamples.
+From HV Require Proto.PaxosModel Proto.PPaxos.
 
 Definition C40_raft_sms (n : N) : Prop := C40_raft_sms_stmt n.
 
@@ -122,3 +123,15 @@ Theorem C40_raft_sms_from_leader_completeness : forall n,
   (forall y, leffs n y_init y -> LCstar y) -> C40_raft_sms n.
 Proof. exact sms_from_lc. Qed.
 Print Assumptions C40_raft_sms_from_leader_completeness.
+
+(* ------------------------------------------------------------------ Paxos *)
+(* abstract multi-Paxos (ballots, p1a/p1b/p2a/p2b; Proto/PaxosModel.v): at most one value is ever
+   chosen per slot, for every execution (any message delay/reordering/duplication/loss; any
+   quorum of p1b promises may be used by a leader, with the highest-ballot rule per slot) *)
+Theorem C40_paxos_safety : forall n p1 p2, PaxosModel.preachable n p1 -> PaxosModel.psteps n p1 p2 ->
+  forall s v1 v2, PaxosModel.chosen n p1 s v1 -> PaxosModel.chosen n p2 s v2 -> v1 = v2.
+Proof. exact PPaxos.paxos_safety. Qed.
+Print Assumptions C40_paxos_safety.
+
+Example C40_paxos_nonvacuous : exists p, PaxosModel.preachable 3 p /\ PaxosModel.chosen 3 p 0 7.
+Proof. exact PPaxos.paxos_nonvacuous. Qed.
